@@ -3,8 +3,9 @@
 Functions under contract (VCs generated from their real source):
   diffractive_imaging.object_models : ObjectConstraints.apply_hard_constraints, ObjectPixelated.obj
   tomography.object_models          : ObjectConstraints.apply_hard_constraints
-  diffractive_imaging.probe_models  : ProbeConstraints._probe_orthogonalization_constraint, ProbeConstraints.apply_hard_constraints,
+  diffractive_imaging.probe_models  : ProbeConstraints._probe_orthogonalization_constraint,
                                       ProbePixelated._apply_weights, ProbePixelated.initial_probe_weights (setter)
+Not under contract (bounded stand-in only): the 6-line dispatch ProbeConstraints.apply_hard_constraints / ProbePixelated.probe.
 
 Object constraints are verified pointwise over ONE GENERIC PIXEL of a tensor of symbolic shape (complex entries as (re, im);
 the global mean phase is the Sigma-term the code computes, i.e. a free real).  The probe functions are verified in an abstract
@@ -421,10 +422,16 @@ def assume_ip_axioms(ctx):
 
 
 def unit_norms(U, k):
-    """H(k): the first k normalised residuals have unit norm, i.e. none of them hit the clamp_min(1e-12) floor
-    (quantitative linear independence of the input modes - the property's precondition)."""
+    """H(k): none of the first k normalised residuals is shorter than one, i.e. no residual norm fell below the clamp_min(1e-12)
+    floor (quantitative linear independence of the input modes - the property's precondition).  The other half, norm <= 1, is
+    PROVED from the code (loop invariant `normalised-residuals-have-norm<=1`), so H together with the invariant gives unit norms."""
     c = I("c!g")
-    return forall([c], implies(AND(c >= 0, c < k), ip(U(c), U(c))[0] == 1))
+    return forall([c], implies(AND(c >= 0, c < k), ip(U(c), U(c))[0] >= 1))
+
+
+def norms_le_1(U, k):
+    c = I("c!h")
+    return forall([c], implies(AND(c >= 0, c < k), ip(U(c), U(c))[0] <= 1))
 
 
 def gs_setup(ctx):
@@ -446,6 +453,7 @@ def gs_outer_inv(s):
     r, i = ip(L.fn(a), L.fn(b))
     orth = forall([a, b], implies(AND(a >= 0, a < b, b < k), AND(r == 0, i == 0)))
     return [("len(orthogonal_probes)=i", lift(L.n) == k),
+            ("normalised-residuals-have-norm<=1", norms_le_1(L.fn, k)),
             ("unit-norms=>orthogonal_probes[:i]-pairwise-orthogonal", implies(unit_norms(L.fn, k), orth))]
 
 
@@ -1080,6 +1088,7 @@ TRUSTED = [
     "complex arithmetic of torch tensors = field arithmetic on (re, im) pairs; abs = sqrt(re^2+im^2); exp(i x) = (cos x, sin x) (pyvc/lib/c10_models.py, pixel domain)",
     "inner-product domain (pyvc/lib/c10_models.py): a pixel sum of conj(x)*y is the sesquilinear form <x,y>; expansion of pixel sums over finite linear combinations; conjugate symmetry and positivity axioms",
     "A5 Parseval: torch.fft.fft2(norm='ortho') over the pixel axes preserves <.,.>",
+    "torch.vdot(x, y) = <x, y> (conjugate on the FIRST argument), torch.dot(x, y) = sum x*y, torch.norm = sqrt(Re <x, x>), flattening the pixel axes keeps the vector",
     "torch.argsort(descending=True) returns a permutation of the indices with non-increasing keys; a permutation preserves the multiset",
     "tensor.max()/min() bound every element; tensor.any() and boolean-mask gather are abstract (no C10 statement depends on their value)",
     "quantem.core.utils.validators.validate_tensor returns the same numbers as a tensor (helper, not under contract)",
@@ -1092,6 +1101,8 @@ ASSUMPTIONS = [
     "identical_slices with more than one slice: proved are tied slices, result = slice mean of the untied constrained object, and the type claims of that untied object; amplitude <= 1 and positivity of the mean follow by the step lemmas plus trusted induction (also bounded check)",
     "mode count 1..5 is enumerated for _apply_weights and the weights setter (the property's own range); Gram-Schmidt is proved for every mode count by induction",
     "probe center-of-mass constraint, random phase shifts and ProbeParametric/ProbeDIP/ObjectDIP wrappers are outside the claim",
+    "the dispatch ProbeConstraints.apply_hard_constraints / ProbePixelated.probe (orthogonalize_probe switch) is covered by a bounded run-time check only, not by proof",
+    "three literal claims are NOT met by the unchanged code and are reported as known findings (pure_phase amplitude m^2 under the FOV mask; complex amplitude not idempotent under a fractional FOV mask; pure_phase amplitude < 1 after slice tying); what is proved in their place is stated in the obligations next to them",
 ]
 EXPLANATION = ("VCs from the real source of the object hard constraints (pointwise over one generic pixel of a symbolic-shape tensor, complex entries "
                "as (re, im), mean phase = the code's own Sigma-term), of the Gram-Schmidt orthogonalisation (outer/inner loop invariants in an abstract "
